@@ -123,6 +123,8 @@ def confirm(pid, k):
         good = meta["demo_passes_without_change"] and meta["demo_fails_with_change"] and meta["existing_suite_passes_with_change"] and meta["builds_all_features"]
         meta["kept"] = bool(good)
         print(json.dumps({k_: v for k_, v in meta.items() if "tail" not in k_}, indent=1))
+        if not meta["existing_suite_passes_with_change"]:
+            print("SUITE OUTPUT:\n" + meta["existing_suite_tail"])
         if good:
             dst = os.path.join(V, "seeded", meta["id"])
             os.makedirs(dst, exist_ok=True)
